@@ -428,6 +428,15 @@ def oracle_routes(case):
     pr = R.ProductReward([rs[0], rs[1]])
     checks.append(('product reward is the pointwise product', pr._get(ss).tolist(),
                    (np.asarray(rs[0]._get(ss)) * np.asarray(rs[1]._get(ss))).tolist(), 0))
+    # a Sum and a Product of the SAME components asked one after the other on the same object (memo keys must differ)
+    pv = raw([R.ProductReward([rs[0], rs[1]])])
+    sv = raw([R.SumReward([rs[0], rs[1]])])
+    fresh = build.coalescent(spec)
+    checks.append(('sum after product of the same components (memoisation)', sv,
+                   fresh.moment(1, (R.SumReward([mk_reward(case['rewards'][0]), mk_reward(case['rewards'][1])]),), center=False), 1e-12))
+    checks.append(('sum of rewards acts linearly after the product was asked', sv, means[0] + means[1], 1e-10))
+    checks.append(('product after sum of the same components (memoisation)', pv,
+                   build.coalescent(spec).moment(1, (R.ProductReward([mk_reward(case['rewards'][0]), mk_reward(case['rewards'][1])]),), center=False), 1e-12))
     # memoisation keyed by reward equality: equal rewards built twice give the same number
     rs2 = [mk_reward(r) for r in case['rewards']]
     checks.append(('rewards that compare equal give the same value', c.moment(k, tuple(rs2), center=True), cen, 0))
